@@ -103,7 +103,7 @@ fn balanced(n: usize, seed: u64, pattern: u64) -> Verdict {
         info = info.class("absolute_bound_at_4096");
     }
     Ok(info.class(match n {
-        0..=255 => "n_33..255_karatsuba_band",
+        0..=255 => "n_128..255_karatsuba_band",
         256..=511 => "n_256..511",
         512..=1023 => "n_512..1023",
         1024..=2047 => "n_1024..2047",
@@ -134,7 +134,7 @@ impl Property for C20 {
         "C20"
     }
     fn rule(&self) -> &'static str {
-        "Cases: balanced (n, operand seed) for n in {256, 320, 384, 512, 768, 1024, 1536, 2048} (quick; thorough adds 3072, 4096, 6144, 8192) and for n anywhere in 33..=255 (just above the 32-digit schoolbook threshold and across the Karatsuba band) with dense operands (every digit non-zero) W(2n)/W(n) <= 3.4 where W counts the digit multiplications of one product through the work-counter hook - for `&a * &b`, for `a *= &b` on an object whose buffer has spare capacity from an earlier larger value, and for the self-product `&a * &a`; in 40% of the cases operands with every other digit (or two digits in three) zero are added and must not cost more than 1.25x the dense operands of the same length in any of the three forms - and W(4096 x 4096) < 4096^2/4 whenever 4096 is one of the two sizes; unbalanced (n, m, seed) over the shapes n x (2n-1), n x 2n, n x 3n, n x 64n for n in {33, 64, 100, 256, 300, 512}, plus free shapes n x m with n in 33..=600 and m from n+1 (near-balanced) to 64n: W <= n*m in both operand orders. Every product is also checked for correctness by modular fingerprints (and exactly when the shorter operand has <= 600 digits). Non-trivial: every case (all sizes are above the documented thresholds); distinct by (shape, seed)."
+        "Cases: balanced (n, operand seed) for n in {256, 320, 384, 512, 768, 1024, 1536, 2048} (quick; thorough adds 3072, 4096, 6144, 8192) and for n anywhere in 128..=255 (the upper Karatsuba band, where doubling crosses into Toom-3) with dense operands (every digit non-zero) W(2n)/W(n) <= 3.4 where W counts the digit multiplications of one product through the work-counter hook - for `&a * &b`, for `a *= &b` on an object whose buffer has spare capacity from an earlier larger value, and for the self-product `&a * &a`; in 40% of the cases operands with every other digit (or two digits in three) zero are added and must not cost more than 1.25x the dense operands of the same length in any of the three forms - and W(4096 x 4096) < 4096^2/4 whenever 4096 is one of the two sizes; unbalanced (n, m, seed) over the shapes n x (2n-1), n x 2n, n x 3n, n x 64n for n in {33, 64, 100, 256, 300, 512}, plus free shapes n x m with n in 33..=600 and m from n+1 (near-balanced) to 64n: W <= n*m in both operand orders. Every product is also checked for correctness by modular fingerprints (and exactly when the shorter operand has <= 600 digits). Non-trivial: every case (all sizes are above the documented thresholds); distinct by (shape, seed)."
     }
     fn technique(&self) -> &'static str {
         "metamorphic property-based testing (proptest) on a deterministic work counter (no timing): cost ratios under length doubling and against the schoolbook count"
@@ -154,8 +154,10 @@ impl Property for C20 {
             }
             v
         };
-        // just above the schoolbook threshold (32 digits) and across the Karatsuba band: doubling already gives 3
-        let small_sizes = prop_oneof![select(vec![33u64, 34, 40, 48, 64, 65, 100, 127, 128, 129, 200, 255]), 33u64..=255];
+        // the upper half of the Karatsuba band, where doubling crosses into Toom-3.  (Doubling gives 3 from 33 digits
+        // up on this tree, but lengths below 128 are left out on purpose: a retuned Karatsuba threshold of up to 2n
+        // would turn the law into an alarm about a tuning decision, which the property does not forbid.)
+        let small_sizes = prop_oneof![select(vec![128u64, 129, 160, 192, 200, 255]), 128u64..=255];
         // free unbalanced shapes, near-balanced (m in (n, 2n)) and wide
         let free = prop_oneof![
             (33u64..=600, 101u64..=200).prop_map(|(n, f)| (n, n * f / 100 + 1)),
@@ -173,7 +175,7 @@ impl Property for C20 {
         match c.op.as_str() {
             "balanced" => {
                 let n = c.u(0) as usize;
-                if !(33..=16384).contains(&n) {
+                if !(128..=16384).contains(&n) {
                     return Err("harness: size outside the generated domain".into());
                 }
                 balanced(n, c.u(1) as u64, if c.args.len() > 2 { c.u(2) as u64 } else { 0 })
